@@ -273,3 +273,73 @@ func H_base_autoload() {
 	symx.Assert(!leaked, "the autoloaded class is not registered on the base VM")
 	symx.Reach("end")
 }
+
+// H_base_closure: a closure CREATED at boot on the base VM (a route handler, a middleware) is
+// invoked the way the hot-reload HTTP handler does it: with a context derived from the boot
+// context whose VM is a fresh temporary VM. What the closure body defines (a function, a class)
+// lands on that temporary VM only: the request sees it, the base VM and the next request do not,
+// and the next request can run the same handler again.
+func H_base_closure() {
+	kind := symx.Choose("kind", 6) // what the body defines / how the closure was made
+	defer symx.VCleanup()
+	symx.VReset()
+	root := symx.VRoot()
+	symx.VFile(root+"/inc.php", "<?php\nfunction rq_helper() { return 41; }\n")
+	bp := parser.NewParser()
+	base := runtime.NewVM(bp)
+	base.SetThrowControl(func(acl data.Control) {})
+	data.WriteOutput = func(string) {}
+	boot := []string{
+		"$handler = function () { function rq_helper() { return 41; } return 1; };",
+		"$handler = function () { include \"" + root + "/inc.php\"; return 1; };",
+		"function mkHandler() { return function () { function rq_helper() { return 41; } return 1; }; } $handler = mkHandler();",
+		"$inner = function () { function rq_helper() { return 41; } return 1; }; $handler = function () use ($inner) { return $inner(); };",
+		// a service object made at boot, kept in a static property, whose method defines something when a request calls it
+		"class Svc { function boot() { function rq_helper() { return 41; } return 1; } } class Reg { public static $svc = null; } Reg::$svc = new Svc(); $handler = function () { return Reg::$svc->boot(); };",
+		// a closure made by a method of a boot-time object
+		"class Mk { function handler() { return function () { function rq_helper() { return 41; } return 1; }; } } $m = new Mk(); $handler = $m->handler();",
+	}[kind]
+	prog, ctl := bp.ParseString(boot, "boot.zy")
+	symx.Assert(ctl == nil && prog != nil, "boot script parses")
+	if ctl != nil || prog == nil {
+		return
+	}
+	vars := bp.GetVariables()
+	baseCtx := base.CreateContext(vars)
+	if _, c := prog.GetValue(baseCtx); c != nil {
+		symx.Assert(false, "boot script runs")
+		return
+	}
+	var handler *data.FuncValue
+	for _, v := range vars {
+		if v.GetName() == "handler" {
+			val, _ := baseCtx.GetIndexValue(v.GetIndex())
+			handler, _ = val.(*data.FuncValue)
+		}
+	}
+	symx.Assert(handler != nil, "handler closure created")
+	if handler == nil {
+		return
+	}
+	defined := func(vm data.VM) bool {
+		_, ok := vm.GetFunc("rq_helper")
+		return ok
+	}
+	serve := func(t data.VM) bool {
+		ctx := baseCtx.CreateContext(handler.Value.GetVariables())
+		ctx.SetVM(t)
+		_, c := handler.Value.Call(ctx)
+		return c == nil
+	}
+	// recorded finding: an OBJECT made at boot keeps its creation context, so its methods (and the
+	// closures they make) run on the base VM whichever VM the caller is on
+	known, id := kind >= 4, "C12-boot-object-method-runs-on-base-vm"
+	t1 := runtime.NewTempVM(base)
+	symx.Assert(serve(t1), "first request runs the handler")
+	symx.AssertKnown(defined(t1) || kind >= 4, "the request sees what its handler defined", known, id)
+	symx.AssertKnown(!defined(base), "what a request's handler defined is not registered on the base VM", known, id)
+	t2 := runtime.NewTempVM(base)
+	symx.AssertKnown(!defined(t2), "what a request's handler defined is not visible to the next request", known, id)
+	symx.AssertKnown(serve(t2), "the next request runs the same handler (the first request's definitions are not in its way)", known, id)
+	symx.Reach("end")
+}
